@@ -5,33 +5,6 @@ part and file name, and of the kernel walk along it.
 import IrVerif.Lemmas.PathFS
 namespace IrVerif.Path
 
-/-- a walk over `a ++ b` (b non-empty) follows every link in `a` and continues over `b` -/
-theorem walk_append (fs : FS) (f : Nat) (b : List Str) (fl : Bool) (hb : b ≠ []) :
-    ∀ (a : List Str) (cur : Loc), walk fs f cur (a ++ b) fl =
-      (walk fs f cur a true).bind (fun d => walk fs f d b fl) := by
-  intro a
-  induction a with
-  | nil => intro cur; simp [walk_nil]
-  | cons c a ih =>
-    intro cur
-    have hne : a ++ b ≠ [] := by simp [hb]
-    rw [List.cons_append, walk, walk]
-    split
-    · split
-      · exact ih _
-      · split
-        · exact ih _
-        · split
-          · rfl
-          · simp only [hne, false_and, if_false, Bool.true_eq_false, and_false]
-            split
-            · rfl
-            · split
-              · rfl
-              · exact ih _
-          · exact ih _
-    · rfl
-
 theorem walk_empties (fs : FS) (f : Nat) (cur : Loc) (hd : fs.get cur = some Node.dir) (n : Nat) :
     walk fs f cur (List.replicate n []) true = some cur := by
   induction n with
@@ -215,7 +188,9 @@ theorem load_base_is_model_dir (fs : FS) (f : Nat) (cwd : Loc) (p : Str) (l : Lo
         rw [hpe, splitSep_append_sep, hname, hs']
       rw [hsplit] at h
       simp only [startLoc, habp, if_true] at h
-      rw [walk_append fs f [name] true (by simp), walk_empties fs f [] fs.get_root] at h
+      obtain ⟨d0, hw0, h⟩ := walk_append_some fs f _ _ [name] l h
+      have hd0 := walk_empties_some fs f [] d0 _ hw0
+      subst hd0
       refine ⟨[], ?_, fs.get_root, h⟩
       rw [hlb]
       unfold kresolve
@@ -253,12 +228,9 @@ theorem load_base_is_model_dir (fs : FS) (f : Nat) (cwd : Loc) (p : Str) (l : Lo
         rw [hpe2, splitSep_append_sep, splitSep_replicate_append, hname]
       have hab : isabs p = isabs d0 := by
         rw [hpe2]; exact isabs_append _ _ hd0ne
-      rw [hsplit2, walk_append fs f _ true (by simp)] at h
-      obtain ⟨d1, hw1, h2⟩ := Option.bind_eq_some' h
-      try simp only at h2
-      rw [walk_append fs f [name] true (by simp)] at h2
-      obtain ⟨d, hw2, h3⟩ := Option.bind_eq_some' h2
-      try simp only at h3
+      rw [hsplit2] at h
+      obtain ⟨d1, hw1, h2⟩ := walk_append_some fs f _ _ _ l h
+      obtain ⟨d, hw2, h3⟩ := walk_append_some fs f _ _ [name] l h2
       have hdd := walk_empties_some fs f d1 d j hw2
       rw [hdd] at h3
       obtain ⟨hd, _⟩ := walk_cons_inv fs f d1 _ _ l h3
